@@ -119,6 +119,7 @@ type Val struct {
 	Tuple []Val
 	Loc   *Loc
 	Dyn   types.Type // dynamic type inside an interface value, when statically known
+	CLen  int        // 1 + statically known length of a slice value (slice literal), 0 = unknown
 }
 
 type Loc struct {
@@ -411,7 +412,7 @@ func (fx *FX) noteKnown(t string) {
 	}
 }
 
-var boundRe = regexp.MustCompile(`!q[0-9]+`)
+var boundRe = regexp.MustCompile(`![bl][0-9]+\b`)
 
 // canonBound renames quantified variables (x!q17) by order of first occurrence, so alpha-equivalent copies compare equal.
 func canonBound(t string) string {
